@@ -157,7 +157,7 @@ func (b *Bed) Restart() error {
 	mgr, err := managers.New(ctx, &managers.OrdaServerConfig{
 		Notification: b.MQ.Addr(),
 		Mongo: &mongodb.Config{Host: b.DB.Addr(), OrdaDB: DBName, User: "u", Password: "p",
-			Options: "authMechanism=PLAIN&authSource=$external&appName=" + b.App + "&serverSelectionTimeoutMS=2000&connectTimeoutMS=2000"},
+			Options: "authMechanism=PLAIN&authSource=$external&appName=" + b.App + "&serverSelectionTimeoutMS=500&connectTimeoutMS=500"},
 	})
 	if err != nil {
 		return fmt.Errorf("managers.New: %v", err)
